@@ -329,16 +329,20 @@ class Gen:
     def nscall_item(self, depth):
         r = self.rng
         attrs = []
-        for j in range(r.randint(0, 3)):
+        def pypart(nc, ml):
+            # line breaks directly after "${" / before "}" belong to the argument expression as well
+            return {"py": self.py(nc, "'", ml), "lead": r.choice(["", "", "", "\n   ", "\n\n  ", " "]),
+                    "trail": r.choice(["", "", "", "\n  ", "\n", " "])}
+        for j in range(r.randint(0, 4)):
             k = "a%d" % self.uid()
             kind = r.random()
-            if kind < 0.3:
+            if kind < 0.25:
                 parts = [{"lit": r.choice(["plain", "#12", self.decoy("'"), "it's"])}]
             elif kind < 0.8:
-                parts = [{"py": self.py(r.choice([0, 1, 1, 2]), "'", r.random() < 0.2)}]
+                parts = [pypart(r.choice([0, 1, 1, 2]), r.random() < 0.2)]
             else:
-                parts = [{"lit": "pre "}, {"py": self.py(1, "'", False)}, {"lit": " post"}]
-            attrs.append({"k": k, "parts": parts, "nl": j > 0 and r.random() < 0.3})
+                parts = [{"lit": "pre "}, pypart(1, False), {"lit": " post"}]
+            attrs.append({"k": k, "parts": parts, "nl": j > 0 and r.random() < 0.4})
         return {"t": "nscall", "ns": r.choice(["self", "ns1", "local"]), "name": "comp%d" % self.uid(), "attrs": attrs,
                 "selfclose": r.random() < 0.3, "first_nl": bool(attrs) and r.random() < 0.15,
                 "body": self.seq(depth + 1, r.randint(0, 2)), "ind": r.choice(["", "  "])}
@@ -526,7 +530,8 @@ class Render:
                     self.w(" |" + ("\n   " if f["nl"] else " ") + f["src"])
                     for m in f["calls"]:
                         d = dict(m)
-                        d.update(kind="expr-filter", in_filter=True, hidden=hidden, late=bool(f["nl"]), lead=0, cidx=len(self.constructs) - 1)
+                        d.update(kind="expr-filter", in_filter=True, hidden=hidden, late=bool(f["nl"]), lead=0, cidx=len(self.constructs) - 1,
+                                 rec_off=(e["lead"] + e["body"]["src"] + e["trail"]).count("\n") + _nl_before(f["src"], m["key"]))
                         self.calls[m["key"]] = d
                         c["keys"].append(m["key"])
                 self.w("}")
@@ -569,6 +574,8 @@ class Render:
             self.w(sep)
             if k == pykey:
                 late = "\n" in "".join(self.parts[start:])
+                for m in calls:
+                    self.calls[m["key"]]["rec_off"] = _nl_before(v, m["key"])
             self.w(k + '="' + v + '"')
         self.w(close)
         if late:
@@ -624,6 +631,7 @@ class Render:
         self.construct(scope, "nscall", allcalls, hidden)
         self.w("<%" + it["ns"] + ":" + it["name"])
         outside_nl = 0
+        inside_nl = 0      # line breaks inside the argument expressions written so far (= inside the assembled code)
         for j, a in enumerate(it["attrs"]):
             if (j == 0 and it["first_nl"]) or a["nl"]:
                 self.w("\n     ")
@@ -635,9 +643,12 @@ class Render:
                 if "lit" in p:
                     self.w(p["lit"])
                 else:
+                    body = p.get("lead", "") + p["py"]["src"] + p.get("trail", "")
                     for m in p["py"]["calls"]:
                         self.calls[m["key"]]["late"] = outside_nl > 0
-                    self.w("${" + p["py"]["src"] + "}")
+                        self.calls[m["key"]]["rec_off"] = inside_nl + _nl_before(body, m["key"])
+                    inside_nl += body.count("\n")
+                    self.w("${" + body + "}")
             self.w('"')
         if it["selfclose"]:
             self.w("/>\n")
@@ -651,6 +662,12 @@ class Render:
         sc = self.new_scope()
         self.seq(it["body"], sc, True)
         self.w("</%namespace>\n")
+
+
+def _nl_before(text, key):
+    """line breaks in `text` before the literal of the planted message `key`"""
+    i = max(text.find("'" + key + "'"), text.find('"' + key + '"'))
+    return text[:max(i, 0)].count("\n")
 
 
 def line_of(src, pos):
@@ -1081,8 +1098,10 @@ def check_results(flavor, res, truth, info, rd, tags):
             if payload != want:
                 bad.append(("wrong-messages", "%r: %r instead of %r" % (key, payload, want)))
             if line != t["line"]:
-                if t["late"]:
+                if t["late"] and line == t["cline"] + t.get("rec_off", 0):
                     bad.append(("code-in-attribute-on-later-line-of-multiline-tag", "%r written on line %d, reported on line %d (tag starts on line %d)" % (key, t["line"], line, t["cline"])))
+                elif t["late"]:
+                    bad.append(("wrong-line-deviates-from-recorded-behaviour:" + t["kind"], "%r written on line %d, reported on line %d; the recorded F7 behaviour reports line %d (construct starts on line %d)" % (key, t["line"], line, t["cline"] + t.get("rec_off", 0), t["cline"])))
                 else:
                     bad.append(("wrong-line:" + t["kind"], "%r written on line %d, reported on line %d" % (key, t["line"], line)))
             got_c = list(comments)
@@ -1091,8 +1110,10 @@ def check_results(flavor, res, truth, info, rd, tags):
             if (payload[0], payload[1]) != want:
                 bad.append(("wrong-messages", "%r: %r instead of %r" % (key, payload, want)))
             if line != t["line"]:
-                if t["late"]:
+                if t["late"] and line == t["cline"] + t.get("rec_off", 0):
                     bad.append(("code-in-attribute-on-later-line-of-multiline-tag", "lingua: %r written on line %d, reported on line %d" % (key, t["line"], line)))
+                elif t["late"]:
+                    bad.append(("wrong-line-deviates-from-recorded-behaviour:" + t["kind"], "lingua: %r written on line %d, reported on line %d; the recorded F7 behaviour reports line %d" % (key, t["line"], line, t["cline"] + t.get("rec_off", 0))))
                 elif line == t["line"] - 1:
                     bad.append(("lingua-line-one-less", "lingua: %r written on line %d, reported on line %d" % (key, t["line"], line)))
                 elif t["lead"] > 0 and line == t["line"] - 1 - t["lead"]:
